@@ -1842,6 +1842,8 @@ def c18b(chk):
 def c18c(chk):
     prog = chk.prog
 
+    site_counts = {}
+
     def flow(f, seeds, skip_bb=None):
         """(content-dependent sinks of the byte slice held in `seeds` within f, [(workspace callee, its parameter local)] it is handed to)"""
         derived = set(seeds)
@@ -1884,6 +1886,7 @@ def c18c(chk):
                         passed.append((tg[0], i_ + 1))
                     continue
                 sinks.add(nm)
+                site_counts[(f.path, nm)] = site_counts.get((f.path, nm), 0) + 1
         for b2, i, p, rv, s_ in f.assigns():
             if rv["k"] == "binop" and any(op_place(o) and op_place(o)[0] in derived for o in (rv["l"], rv["r"])):
                 sinks.add("compare:" + rv["op"])
@@ -1903,6 +1906,7 @@ def c18c(chk):
             work = [(f, {an.call_dest_local(t)}, b)]
             seen = set()
             per_fn = {}
+            site_counts.clear()
             while work:
                 g, seeds, skip = work.pop()
                 key_ = (g.path, tuple(sorted(x for x in seeds if x is not None)))
@@ -1924,8 +1928,12 @@ def c18c(chk):
                     continue
                 # the key names the sinks, so that a further content-dependent decision at an already recorded site is a new violation
                 # (by kind, not by method: peeking at a prefix through get(..n), starts_with, first, split_first, [..n], == is one kind)
-                kinds = sorted({("prefix" if x.split("::")[-1] in PREFIX_PEEKS else x.split("::")[-1]) for x in content})
-                kx = ("[sinks=%s]" % ",".join(kinds)) if content else ""
+                # and with the number of prefix peeks, so that a second content-dependent decision at a recorded site is a new violation
+                kinds = sorted({x.split("::")[-1] for x in content if x.split("::")[-1] not in PREFIX_PEEKS})
+                npeek = sum(site_counts.get((gp, x), 1) for x in content if x.split("::")[-1] in PREFIX_PEEKS and not x.startswith("compare:"))
+                if npeek:
+                    kinds.append("prefix" if npeek == 1 else "prefix*%d" % npeek)
+                kx = ("[sinks=%s]" % ",".join(sorted(kinds))) if content else ""
                 chk.ob("C18.c", "fill_buf@%s/only-emptiness%s" % (gp, kx), not content, f.loc(b),
                        "the bytes returned by fill_buf (one chunk of unspecified length) may only be tested with is_empty(); here they also flow into %s%s, "
                        "so the decision depends on how the stream was chunked" % (content, "" if gp == f.path else " in %s" % gp))
